@@ -31,7 +31,9 @@ fn check(r: &Report, prop: &str, case: &LoopCase, index: u64) {
         return;
     }
     for f in oracle::check_time(case, &out) {
-        if f.prop != prop {
+        // the stop rule is C04's statement whether or not the sample size is being tuned
+        let stop_rule = matches!(f.class.as_str(), "ran-past-max" | "ran-past-min" | "stopped-before-count" | "stopped-before-min" | "no-rounds");
+        if f.prop != prop && !(prop == "C04" && stop_rule) {
             continue;
         }
         r.violation(Violation {
@@ -113,6 +115,37 @@ fn enumerate_c04(cli: &Cli, r: &Report) {
                                 case.horizon = 2 * 64 + 2;
                                 check(r, "C04", &case, index);
                             }
+                        }
+                    }
+                }
+            }
+        }
+    }
+    // The same rule while the sample size is still being tuned (sample_size unset): budgets that run out
+    // in the middle of tuning, expensive generation / drops next to a cheap function.
+    for n in [1u32, 2] {
+        for min in [None, Some(1u64), Some(40)] {
+            for max in [None, Some(0u64), Some(1), Some(3), Some(12), Some(100), Some(1500)] {
+                for skip in skips {
+                    for (g, c, d) in [(0u64, 400u64, 0u64), (5 * u, 400, 0), (0, 400, 5 * u), (30 * u, u, 30 * u), (0, 20 * u, 0), (2 * u, 150 * u, u)] {
+                        for threads in [1usize, 2] {
+                            index += 1;
+                            if !cli.mine(index) {
+                                continue;
+                            }
+                            let mut case = LoopCase::basic(4, 3, 3);
+                            case.sample_count = Some(n);
+                            case.sample_size = None;
+                            case.min_time_ns = min;
+                            case.max_time_ns = max;
+                            case.skip_ext = skip;
+                            case.threads = threads;
+                            case.cost[SITE_GEN] = vec![g];
+                            case.cost[SITE_CALL] = vec![c];
+                            case.cost[SITE_DROP_IN] = vec![d];
+                            case.precision_ps = 1000;
+                            case.horizon = 5000;
+                            check(r, "C04", &case, index);
                         }
                     }
                 }
